@@ -264,7 +264,9 @@ func (r *Regexp) ToKey(b *bytes.Buffer) {
 }
 
 func (r *Regexp) ToString(b io.Writer, s px.FormatContext, g px.RDetect) {
-	utils.RegexpQuote(b, r.pattern.String())
+	bld := bytes.NewBufferString(``)
+	utils.RegexpQuote(bld, r.pattern.String())
+	px.GetFormat(s.FormatMap(), r.PType()).ApplyStringFlags(b, bld.String(), false)
 }
 
 func (r *Regexp) PType() px.Type {
